@@ -635,12 +635,24 @@ func (w *genWorld) runOne(nOps int, directed bool, cont int) {
 	if c.Halted != "" {
 		return
 	}
+	if w.alignDue != 0 && !w.alignToDue(w.alignDue-1) { // dom_genesis_due.go: the export lands on a record's completion height
+		return
+	}
+	w.exportPoint(directed, cont)
+}
+
+// exportPoint commits the running block and takes the export there: export/import, model ops + observation, monitors.
+func (w *genWorld) exportPoint(directed bool, cont int) {
+	c := w.c
 	if r := c.EndAndBegin(time.Second); r.Halt != "" { // commit what was built
 		w.env.Violate("C18.halt", "halt", "block processing panicked: "+r.Halt, w.hist)
 		return
 	}
 	v1 := viewCore(c, committedCtx(c))
 	w.emitCore(v1)
+	// the height InitChain runs InitGenesis at: ExportAppStateAndValidators returns LastBlockHeight()+1
+	w.op(fmt.Sprintf("gen.h %d", c.Header.Height), "ok")
+	w.dueStats(directed) // dom_genesis_due.go: records due at the import height / the height after (coverage)
 	a1 := viewAssets(c, committedCtx(c))
 	w.emitAssets(a1)
 	o1 := viewOperator(c, committedCtx(c))
@@ -741,6 +753,7 @@ func (w *genWorld) nst(method string, si int, vpk string) string {
 }
 
 func domGenesis(env *Env) error {
+	genDue = genDueCount{}
 	rng := NewRNG(env.Report.Seed)
 	env.Report.Domain = "genesis"
 	n := env.Int("histories", 6)
@@ -859,6 +872,9 @@ func domGenesis(env *Env) error {
 		// (a boot failure ends the boundary scenarios as a whole: they share one function)
 		genScenario(env, "boundary", func() { genBoundary(env, rng) })
 	}
+	if env.Int("due", 1) != 0 {
+		genDueScenarios(env) // dom_genesis_due.go: U1..U7, exports at / around the completion height of a record (own random stream)
+	}
 	for hi := 0; hi < n; hi++ {
 		// every second world has the second LST, two of three start from non-default x/exomint / x/feedistribution params
 		// every fourth world without the second LST is the multi-asset world (three LSTs with genesis holders)
@@ -867,11 +883,16 @@ func domGenesis(env *Env) error {
 			genMulti = hi%4 == 2
 			w := newGenWorld(env, rng, env.Report.Seed*1000+uint64(hi))
 			genMulti = false
+			// every fourth history is run on (one-second blocks, no random draw) until the export lands on the completion
+			// height of its earliest pending record (hi%4 == 1) or one block before it (hi%4 == 3)
+			w.alignDue = map[int]int{1: 1, 3: 2}[hi%4]
+			w.isRandom = true
 			w.runOne(5+rng.Intn(ops), false, cont)
 			if hi < 3 {
 				env.Sample(strings.Join(w.hist[:min(len(w.hist), 10)], " ; "))
 			}
 		})
 	}
+	genDueCoverage(env, n)
 	return nil
 }
